@@ -5,8 +5,10 @@ import (
 	"fmt"
 	"os"
 	"path/filepath"
+	"regexp"
 	"sort"
 	"strings"
+	"unicode"
 	"unicode/utf8"
 
 	"go.lsp.dev/protocol"
@@ -277,7 +279,7 @@ func genFmtCase(r *RNG, bad [][]string) fmtCase {
 			// a posting with text the parser does not read, behind more syntax errors than any list would hold
 			var sb strings.Builder
 			for k := 0; k < 105+r.Intn(40); k++ {
-				sb.WriteString("!!! not a journal line " + fmt.Sprint(k) + j.EOL)
+				sb.WriteString(Pick(r, []string{"!!! not a journal line ", "#row;2024-01-15;card payment;-12.50;", "    orphan:posting  1 USD ; ", "99x bad date "}) + fmt.Sprint(k) + j.EOL)
 			}
 			text = sb.String() + j.EOL + text + j.EOL + "2019-09-09 lot" + j.EOL + "    assets:broker  10 AAPL {$150.00} @ $151.20" + j.EOL + "    assets:cash" + j.EOL
 		default:
@@ -417,7 +419,13 @@ func runFormat(c *Ctx, idx int64, prop string) {
 			// damaged / hostile text: attribute to a listed raw-text construct when one is present
 			for _, tf := range textFeatures(fc.Text) {
 				if c.Known.Match(prop, "feat:"+tf) != nil {
-					return "feat:" + tf
+					// only when the construct is what it takes: the same text with its blanks-only
+					// lines already empty must not fail
+					f2 := fc
+					f2.Text = emptyBlankLines(fc.Text)
+					if f2.Text != fc.Text && !fails(f2) {
+						return "feat:" + tf
+					}
 				}
 			}
 			return prop + ":" + kind + "|" + fc.Kind
@@ -555,6 +563,12 @@ func c04JudgeText(beforeText, afterText string) (kind, detail string) {
 		if errLine[i] && nonBlank(bl[i]) != nonBlank(al[i]) {
 			return "unparsed-text-changed", fmt.Sprintf("line %d carries a syntax error and was rewritten: %q -> %q", i+1, bl[i], al[i])
 		}
+		// whatever a rewritten line looks like, nothing but numbers, blanks, quotes and a leading plus
+		// sign may be lost (a missing closing bracket may be supplied): text the parser did not take into the AST is not in the fingerprint,
+		// and the list of syntax errors is the parser's own word (it may be short)
+		if bl[i] != al[i] && !isSubsequence(lineResidue(bl[i]), lineResidue(al[i])) {
+			return "text-lost", fmt.Sprintf("line %d lost text other than numbers, blanks and quotes: %q -> %q", i+1, bl[i], al[i])
+		}
 		if !posting[i] {
 			if strings.TrimRight(bl[i], " \t\r") != strings.TrimRight(al[i], " \t\r") || len(al[i]) > len(bl[i]) {
 				return "nonposting-line-changed", fmt.Sprintf("line %d is not a posting line and changed by more than trailing blanks: %q -> %q", i+1, bl[i], al[i])
@@ -688,6 +702,52 @@ func MinimalFailingGeneric(feats []string, fails func(*MJournal) bool) []string 
 }
 
 // textFeatures detects raw-text constructs (in damaged or hostile documents) that findings refer to.
+var numberRe = regexp.MustCompile(`[-+]?[0-9][0-9.,_ ]*([eE][-+]?[0-9]+)?`)
+
+func isSubsequence(a, b string) bool {
+	ra, rb := []rune(a), []rune(b)
+	j := 0
+	for i := 0; i < len(rb) && j < len(ra); i++ {
+		if rb[i] == ra[j] {
+			j++
+		}
+	}
+	return j == len(ra)
+}
+
+// lineResidue is what is left of a line when numbers, blanks and double quotes are taken out.
+func lineResidue(l string) string {
+	// an empty comment (a bare ';' at the end) may be dropped
+	if t := strings.TrimRight(l, " \t\r"); strings.HasSuffix(t, ";") {
+		l = strings.TrimSuffix(t, ";")
+	}
+	l = numberRe.ReplaceAllString(l, "")
+	var sb strings.Builder
+	for _, r := range l {
+		switch {
+		case unicode.IsSpace(r), r == '"', r == '+', r == '-', r == '.', r == ',':
+		default:
+			sb.WriteRune(r)
+		}
+	}
+	return sb.String()
+}
+
+// emptyBlankLines returns text with every blanks-only line made empty (line terminators kept).
+func emptyBlankLines(text string) string {
+	lines := strings.Split(text, "\n")
+	for i, l := range lines {
+		cr := strings.HasSuffix(l, "\r")
+		if b := strings.TrimSuffix(l, "\r"); b != "" && strings.TrimLeft(b, " \t") == "" {
+			lines[i] = ""
+			if cr {
+				lines[i] = "\r"
+			}
+		}
+	}
+	return strings.Join(lines, "\n")
+}
+
 func textFeatures(text string) []string {
 	var out []string
 	seen := map[string]bool{}
